@@ -294,9 +294,15 @@ func ruleCow(c *Ctx) []*Ob {
 				continue
 			}
 			construct := fmt.Sprintf("%s segment.%s", a.Kind, a.Field.Name())
+			segWritersSet := map[string]string{}
+			for k := range segWriters {
+				segWritersSet[k] = ""
+			}
 			switch {
 			case segWriters[fn]:
 				o.add(fn, construct, c.instrPos(a.Instr), true, "batch-building method (runs before the segment is published, or under the sort ticket)")
+			case onlyCalledFrom(c, f, segWritersSet, 2) != "":
+				o.add(fn, construct, c.instrPos(a.Instr), true, "helper called only from the batch-building method "+onlyCalledFrom(c, f, segWritersSet, 2))
 			case isFreshAlloc(a.Base):
 				o.add(fn, construct, c.instrPos(a.Instr), true, "constructor / loader: the segment is being created")
 			default:
